@@ -25,8 +25,8 @@ def sameSet (a b : List String) : Bool := a.all b.contains && b.all a.contains
 
 /-- `convString` depends on format / minLength / maxLength / pattern only … -/
 theorem convString_frame (p q : Parts) (h1 : p.format = q.format) (h2 : p.minLength = q.minLength)
-    (h3 : p.maxLength = q.maxLength) (h4 : p.pattern = q.pattern) : convString p = convString q := by
-  simp [convString, h1, h2, h3, h4]
+    (h3 : p.maxLength = q.maxLength) (h4 : p.pattern = q.pattern) : convString fx p = convString fx q := by
+  simp [convString, strCks, h1, h2, h3, h4]
 
 /-- … and `convertString` reads exactly these keywords. -/
 theorem reads_convertString : sameSet (readsOf "convertString") ["format", "minLength", "maxLength", "pattern"] = true := by decide
@@ -39,7 +39,7 @@ theorem reads_convertNumber : sameSet (readsOf "convertNumber")
     ["minimum", "maximum", "exclusiveMinimum", "exclusiveMaximum", "multipleOf"] = true := by decide
 
 theorem convInteger_frame (p q : Parts) (h1 : p.minimum = q.minimum) (h2 : p.maximum = q.maximum) (h3 : p.exMin = q.exMin)
-    (h4 : p.exMax = q.exMax) (h5 : p.mul = q.mul) : convInteger p = convInteger q := by
+    (h4 : p.exMax = q.exMax) (h5 : p.mul = q.mul) : convInteger fx p = convInteger fx q := by
   simp [convInteger, h1, h2, h3, h4, h5]
 
 theorem reads_convertInteger : sameSet (readsOf "convertInteger")
@@ -47,7 +47,7 @@ theorem reads_convertInteger : sameSet (readsOf "convertInteger")
 
 /-- `convArray` is `convertArray` + `convertTuple`. -/
 theorem convArray_frame (p q : Parts) (h1 : p.prefixItems = q.prefixItems) (h2 : p.items = q.items)
-    (h3 : p.minItems = q.minItems) (h4 : p.maxItems = q.maxItems) : convArray p = convArray q := by
+    (h3 : p.minItems = q.minItems) (h4 : p.maxItems = q.maxItems) : convArray fx p = convArray fx q := by
   simp [convArray, h1, h2, h3, h4]
 
 theorem reads_convertArray : sameSet (readsOf "convertArray" ++ readsOf "convertTuple")
@@ -57,16 +57,16 @@ theorem reads_convertArray : sameSet (readsOf "convertArray" ++ readsOf "convert
 theorem reads_convertTuple : sameSet (readsOf "convertTuple") ["prefixItems", "items"] = true := by decide
 
 theorem convObject_frame (p q : Parts) (h1 : p.properties = q.properties) (h2 : p.required = q.required)
-    (h3 : p.addl = q.addl) : convObject p = convObject q := by
-  simp [convObject, h1, h2, h3]
+    (h3 : p.addl = q.addl) : convObject fx p = convObject fx q := by
+  simp [convObject, objOf, addlValue, h1, h2, h3]
 
 theorem reads_convertObject : sameSet (readsOf "convertObject") ["properties", "required", "additionalProperties"] = true := by
   decide
 
 /-- `convByType` (= `convertByType` + `convertMultiType`) adds the `type` keyword to what the per-type converters read. -/
 theorem convByType_frame (p q : Parts) (ht : p.types = q.types)
-    (h : ∀ t, convOneType p t = convOneType q t) : convByType p = convByType q := by
-  have hm : ∀ l : List TypeName, l.map (convOneType p) = l.map (convOneType q) := fun l => by simp [h]
+    (h : ∀ t, convOneType fx p t = convOneType fx q t) : convByType fx p = convByType fx q := by
+  have hm : ∀ l : List TypeName, l.map (convOneType fx p) = l.map (convOneType fx q) := fun l => by simp [h]
   simp only [convByType, ht, hm]
   cases q.types with
   | nil => rfl
@@ -78,7 +78,7 @@ theorem reads_convertByType : sameSet (readsOf "convertByType" ++ readsOf "conve
     oneOf, const, enum — and at nothing else before it hands over to `convByType`. -/
 theorem assemble_frame (T : Str → Bool) (st : Bool) (p q : Parts) (h0 : p.ref = q.ref) (h1 : p.others = q.others)
     (h2 : p.allOf = q.allOf) (h3 : p.anyOf = q.anyOf) (h4 : p.oneOf = q.oneOf) (h5 : p.const = q.const)
-    (h6 : p.enum = q.enum) (h7 : convByType p = convByType q) : assemble T st p = assemble T st q := by
+    (h6 : p.enum = q.enum) (h7 : convByType fx p = convByType fx q) : assemble fx T st p = assemble fx T st q := by
   simp only [assemble, h0, h1, h2, h3, h4, h5, h6, h7]
 
 /-- `convert` reads the boolean-schema flag, the resolved `$ref`, and the five dispatch keywords, in this order. -/
